@@ -14,7 +14,21 @@
 //! One ring serves both oracles of DESIGN.md 3.3: the exact ring (x == true => bit equality can
 //! be demanded) and the error-tracking ring (tolerance K*u*e).
 
+use std::cell::Cell;
 use std::ops::{Add, Div, Mul, Neg, Sub};
+
+thread_local! {
+    /// unit roundoff of the type under test; only used for the second-order terms e_a*e_b*u
+    static UNIT: Cell<f64> = const { Cell::new(1.1102230246251565e-16) };
+}
+/// tell the ring which unit roundoff the bounds `e` are multiples of
+pub fn set_unit(u: f64) {
+    UNIT.with(|c| c.set(u));
+}
+#[inline]
+pub fn unit() -> f64 {
+    UNIT.with(|c| c.get())
+}
 
 #[derive(Clone, Copy, Debug)]
 pub struct R {
@@ -44,7 +58,7 @@ impl R {
     pub fn leaf(x: R, fx: f64, dfx: f64, ulps: f64) -> R {
         R {
             v: fx,
-            e: dfx.abs() * x.e + ulps * fx.abs(),
+            e: dfx.abs() * x.e * (1.0 + unit() * x.e) + ulps * fx.abs(),
             m: fx.abs(),
             x: false,
         }
@@ -91,7 +105,9 @@ impl Add for R {
         let ex = self.x && o.x && two_sum_exact(self.v, o.v, v);
         R {
             v,
-            e: self.e + o.e + v.abs(),
+            // charged at the magnitude of the operands (not of the result): a sum of several terms
+            // evaluated in another order has partial sums as large as the terms themselves
+            e: self.e + o.e + self.v.abs().max(o.v.abs()),
             m: self.m + o.m,
             x: ex,
         }
@@ -129,7 +145,7 @@ impl Mul for R {
         let one = (self.x && self.v.abs() == 1.0) || (o.x && o.v.abs() == 1.0);
         R {
             v,
-            e: self.v.abs() * o.e + o.v.abs() * self.e + if one { 0.0 } else { v.abs() },
+            e: self.v.abs() * o.e + o.v.abs() * self.e + unit() * self.e * o.e + if one { 0.0 } else { v.abs() },
             m: self.m * o.m,
             x: ex,
         }
@@ -151,7 +167,7 @@ impl Div for R {
         let one = o.x && o.v.abs() == 1.0;
         R {
             v,
-            e: self.e / o.v.abs() + self.v.abs() * o.e / (o.v * o.v) + if one { 0.0 } else { v.abs() },
+            e: (self.e / o.v.abs() + self.v.abs() * o.e / (o.v * o.v)) * (1.0 + 2.0 * unit() * o.e / o.v.abs()) + if one { 0.0 } else { v.abs() },
             m: self.m / o.v.abs(),
             x: ex,
         }
